@@ -47,6 +47,10 @@ def run(ctx: Ctx):
   for r in (r1, r2, r3, r4, r8, r9, r10, r13, r15, r16, r18, r19, r20, r21):
     ctx.guard(r)
   from mlmverif.props import c18, c19
+  from mlmverif.props import c18 as _c18
+  ctx.include('R-C08-22', '"route data exactly as a reference interpreter": an output routed to an Index of a tuple record rebuilds that'
+              ' tuple from a list of its items with the builtin `tuple` (R-C18-16) — rebuilding with the record\'s own type'
+              ' fails for named-tuple records / fields at run time', _c18.r16, min_instances=1)
   ctx.include('R-C08-5', '"leaves the caller\'s input objects untouched": the'
               ' copy-on-write tree update the operators write through (R-C18-1'
               ' fresh-copy discipline, R-C18-2 routing)', _c18_shared, min_instances=8)
@@ -922,6 +926,8 @@ from mlmverif.selfcheck import B, OK  # noqa: E402
 _F = 'chainables/tree_fns.py'
 _T = 'chainables/transform.py'
 VARIANTS = [
+    B('tuple-record-rebuilt-with-its-own-type', 'chainables/tree.py',
+      "        container_maker = tuple\n", "        container_maker = type(tree)\n", 'R-C08-22'),
     OK('batch-size-guard-de-morgan', 'chainables/tree_fns.py',
        "    if self.fn_batch_size and not self.batch_size:\n      raise ValueError(\n          'fn_batch_size should be used with batch_size, got'",
        "    if not (not self.fn_batch_size or self.batch_size):\n      raise ValueError(\n          'fn_batch_size should be used with batch_size, got'"),
